@@ -3,7 +3,7 @@
 From Coq Require Import List ZArith Bool String Lia Floats.PrimFloat.
 From LBFGSB Require Import Base.Res Base.Hoare Base.FloatOrd Model.SF Model.FloatVec Model.Driver Generated.Consts
   Proofs.SFProofs Proofs.SFPoints Proofs.DriverBox Proofs.DriverReport Proofs.DriverValues Proofs.DriverLineSearch
-  Model.Dcsrch Model.DriverDcs Proofs.DcsrchProofs Proofs.DriverDcsrch.
+  Model.Dcsrch Model.DriverDcs Proofs.DcsrchProofs Proofs.DriverDcsrch Proofs.FloatZero Proofs.DriverStepPositive.
 Import ListNotations.
 Open Scope Z_scope.
 
@@ -52,6 +52,27 @@ Section C11.
     forall a t1 tr, line_search U K c xk f0 g0 d nit cap t = (Ok (Some a, t1), tr) ->
     is_nan a = true \/ (leb 0 a = true /\ leb a (stpmax_of c xk d nit) = true).
   Proof. intros sq HK Hm a t1 tr H. exact (line_search_range_dcsrch U K c sq HK xk f0 g0 d nit cap t a t1 tr Hm H). Qed.
+
+  (* 5. the step handed back is not zero: a zero step would evaluate the start point itself (x + 0*d clipped = x for a finite
+     direction and a start inside the box), whose value is not strictly below itself.  With 4.: NaN or in (0, stpmax]. *)
+  Theorem C11_step_positive : forall sq : float -> float, (forall q h, dcs K q h = dcs_model sq q h) ->
+    (forall p q, veqb p q = true -> uf U p = uf U q /\ ug U p = ug U q /\ fd_stencil U p = fd_stencil U q /\ fd_est U p = fd_est U q) ->
+    Inv vec float vec float (uf U) (ug U) (fd_stencil U) (fd_est U) (fdmode U) t ->
+    (exists fv0, uf U xk = Ok fv0 /\ f0 = mul fv0 (SF.scale _ _ _ _ t)) ->            (* f0 is the value at the start *)
+    inbox xk (lb c) (ub c) -> nonan xk ->                                               (* the start is a feasible point *)
+    Forall (fun di => FloatVec.is_finite di = true) d -> List.length d = List.length xk ->   (* the direction is finite *)
+    leb 0 (stpmax_of c xk d nit) = true ->
+    forall a t1 tr, line_search U K c xk f0 g0 d nit cap t = (Ok (Some a, t1), tr) ->
+    is_nan a = true \/ (ltb 0 a = true /\ leb a (stpmax_of c xk d nit) = true).
+  Proof.
+    intros sq HK Hu HI Hf0 Hb Hn Hd Hl Hm a t1 tr H.
+    pose proof (line_search_step_nonzero FloatZero.axpy_zero FloatZero.eqb_trans U K c Hu xk f0 g0 d nit cap t a t1 tr HI Hf0 Hb Hn Hd Hl H) as Hz.
+    destruct (line_search_range_dcsrch U K c sq HK xk f0 g0 d nit cap t a t1 tr Hm H) as [E|[E1 E2]]; [left; exact E|right].
+    split; [|exact E2]. destruct (ltb 0 a) eqn:El; [reflexivity|exfalso].
+    destruct (leb_not_nan _ _ E1) as [N0 Na].
+    assert (E3 : leb a 0 = true) by (apply ltb_false_leb; assumption).
+    rewrite (leb_antisym _ _ E3 E1) in Hz. discriminate.
+  Qed.
 End C11.
 
 (* the routine can propose a NaN step from finite values and steps in range (3*(fx-fp) overflows inside dcstep) *)
@@ -71,4 +92,5 @@ Print Assumptions C11_points_in_box.
 Print Assumptions C11_within_budget.
 Print Assumptions C11_strictly_downhill.
 Print Assumptions C11_step_in_range.
+Print Assumptions C11_step_positive.
 Print Assumptions C11_dcsrch_can_return_nan.
